@@ -257,7 +257,13 @@ func (e *Env) eval(ex ast.Expr) Val {
 			// &name: the address of a local struct / captured variable (as passed to pointer-receiver methods)
 			if id, ok := n.X.(*ast.Ident); ok && e.fr != nil {
 				if p, ok := e.fr.lookupAddr(e.st, id.Name); ok {
+					e.recordLocal(id.Name)
 					return p
+				}
+				if nn, ok := e.aliasOf(id.Name); ok {
+					if p, ok := e.fr.lookupAddr(e.st, nn); ok {
+						return p
+					}
 				}
 			}
 			// &x.f where f is a nested struct field of *x: the sub-object reference
@@ -347,8 +353,23 @@ func (e *Env) evalIdent(name string) Val {
 		}
 	}
 	if e.fr != nil {
+		if vis, known := e.fr.lexicallyVisible(name); known && !vis {
+			// no variable of that name is in scope where the clause stands: a renamed declaration goes first, so that
+			// a like-named variable elsewhere in the function is not taken for it
+			if nn, ok := e.aliasOf(name); ok {
+				if v, ok := e.fr.lookupLocal(e.st, nn); ok {
+					return v
+				}
+			}
+		}
 		if v, ok := e.fr.lookupLocal(e.st, name); ok {
+			e.recordLocal(name)
 			return v
+		}
+		if nn, ok := e.aliasOf(name); ok {
+			if v, ok := e.fr.lookupLocal(e.st, nn); ok {
+				return v
+			}
 		}
 	}
 	if e.pkg != nil {
